@@ -240,6 +240,11 @@ func (t *trigger) SetProcessed(header data.HeaderHandler, body data.BodyHandler)
 	metaHash := t.hasher.Compute(string(metaBuff))
 
 	t.currEpochStartRound = metaBlock.Round
+	if t.nextEpochStartRound < t.currEpochStartRound+t.minRoundsBetweenEpochs {
+		// a forced epoch start requested while this start of epoch block was pending has been
+		// clamped relative to the round of the trigger, which can be earlier than the block's round
+		t.nextEpochStartRound = t.currEpochStartRound + t.minRoundsBetweenEpochs
+	}
 	t.epoch = metaBlock.Epoch
 	t.isEpochStart = false
 	t.currentRound = metaBlock.Round
